@@ -1723,13 +1723,14 @@ fn grav_layout() -> impl Strategy<Value = GravLayout> {
 /// with every mixture of bounds inside/outside [-720, 720] (at least one outside).
 fn grav_spec(max_side: usize) -> impl Strategy<Value = GravSpec> {
     (
-        (2usize..=max_side, 2usize..=max_side, 1usize..=3, prop::bool::weighted(0.45)),
+        (2usize..=max_side, 2usize..=max_side, 1usize..=3, prop::bool::weighted(0.3)),
         (1u32..=5000, 1u32..=5000, any::<u16>(), any::<u16>()),
         prop::collection::vec((-2_000_000i32..2_000_000, 0u8..3), 1..=12),
         any::<u64>(),
         (0u8..6, 0u8..6),
     )
         .prop_map(|((rows, cols, bands, projected), (ka, kb, oa, ob), seedvals, mix, (cat_a, cat_b))| {
+            let (mut rows, mut cols) = (rows, cols);
             let (dlat, dlon, lat_s, lon_w);
             if projected {
                 // Linear (projected) grids: every mixture of bounds inside / outside [-720, 720].
@@ -1762,11 +1763,47 @@ fn grav_spec(max_side: usize) -> impl Strategy<Value = GravSpec> {
                 (lat_s, dlat) = axis(cat_a, rows, ka, oa);
                 (lon_w, dlon) = axis(cat_b, cols, kb, ob);
             } else {
-                dlat = ka as f64 / 1000.0;
-                dlon = kb as f64 / 1000.0;
-                let (el, eo) = ((rows - 1) as f64 * dlat, (cols - 1) as f64 * dlon);
-                lat_s = ((-90.0 + (oa as f64 / 65536.0) * (180.0 - el)) * 100.0).floor() / 100.0;
-                lon_w = ((-180.0 + (ob as f64 / 65536.0) * (540.0 - eo)) * 100.0).floor() / 100.0;
+                // Angular grids. Per axis: 0/1 anywhere in the geographic range on a decimal lattice;
+                // 2 upper bound exactly on a special value (90, 180, 360, 720, 0, negatives ...);
+                // 3 lower bound exactly on one; 4 global (-90..90, 0..360 or -180..180);
+                // 5 a bound just beyond +-720 (which makes the grid linear by the documented rule).
+                // Categories 2..5 use spacings that are multiples of 1/8 so that the bounds are exact.
+                let axis = |cat: u8, n: usize, k: u32, o: u16, is_lat: bool| -> (f64, f64, usize) {
+                    let cells = (n - 1) as f64;
+                    let d8 = (1 + k % 80) as f64 * 0.125;
+                    let specials: &[f64] = if is_lat { &[90.0, -90.0, 90.0, -90.0, 0.0, 360.0, -360.0, 720.0, -720.0] } else { &[180.0, -180.0, 360.0, -360.0, 720.0, -720.0, 0.0, 360.0, 180.0] };
+                    let sp = specials[o as usize % specials.len()];
+                    let cat = if cat == 5 && o % 3 != 0 { 0 } else { cat }; // keep most grids angular
+                    match cat {
+                        2 => (sp - cells * d8, d8, n),
+                        3 => (sp, d8, n),
+                        4 => {
+                            // n-1 must divide the span into a binary-exact spacing
+                            let n2 = [2usize, 3, 4, 5, 6, 7, 9, 10, 11, 13, 17].iter().cloned().filter(|m| *m <= n.max(2)).last().unwrap_or(2);
+                            let (lo, span) = if is_lat { (-90.0, 180.0) } else if o % 2 == 0 { (0.0, 360.0) } else { (-180.0, 360.0) };
+                            (lo, span / (n2 - 1) as f64, n2)
+                        }
+                        5 => {
+                            let beyond = 720.0 + 0.125 * (1 + o % 4) as f64;
+                            if o % 8 < 4 {
+                                (beyond - cells * d8, d8, n)
+                            } else {
+                                (-beyond, d8, n)
+                            }
+                        }
+                        _ => {
+                            let d = k as f64 / 1000.0;
+                            let e = cells * d;
+                            let (lo, span) = if is_lat { (-90.0, 180.0) } else { (-180.0, 540.0) };
+                            (((lo + (o as f64 / 65536.0) * (span - e)) * 100.0).floor() / 100.0, d, n)
+                        }
+                    }
+                };
+                let (rows2, cols2);
+                (lat_s, dlat, rows2) = axis(cat_a, rows, ka, oa, true);
+                (lon_w, dlon, cols2) = axis(cat_b, cols, kb, ob, false);
+                rows = rows2;
+                cols = cols2;
             }
             let lat_n = lat_s + (rows - 1) as f64 * dlat;
             let lon_e = lon_w + (cols - 1) as f64 * dlon;
@@ -1894,14 +1931,47 @@ fn build_tree(raws: &[RawSub], names_style: u8) -> Vec<Placed> {
             }
         }
         if !placed && (as_root || out.iter().filter(|p| p.parent.is_none()).count() < 3) {
-            let inc_lat = ROOT_INCS[r.inc_a as usize % 5];
-            let inc_lon = ROOT_INCS[r.inc_b as usize % 5];
+            let mut inc_lat = ROOT_INCS[r.inc_a as usize % 5];
+            let mut inc_lon = ROOT_INCS[r.inc_b as usize % 5];
             let (rows, cols) = (r.rows as usize, r.cols as usize);
+            // latitude: anywhere in [-80, 80], or touching a pole exactly, or pole to pole
+            let lat_variant = r.d % 8;
+            if lat_variant == 7 {
+                inc_lat = 180 * 3600 / (rows as i64 - 1); // rows-1 in 1..=6 divides 648000
+            }
             let el = (rows as i64 - 1) * inc_lat;
-            let s = -80 * 3600 + ((r.a as i64 * (160 * 3600 - el)) / 65536 / 3600) * 3600;
-            let w = cursor_w;
-            cursor_w += (cols as i64 - 1) * inc_lon + 4 * 7200;
-            out.push(Placed { name, parent: None, s, w, inc_lat, inc_lon, rows, cols, kids: vec![], vseed: r.vseed, order: r.order });
+            let s = match lat_variant {
+                5 => 90 * 3600 - el,
+                6 | 7 => -90 * 3600,
+                _ => -80 * 3600 + ((r.a as i64 * (160 * 3600 - el)) / 65536 / 3600) * 3600,
+            };
+            // longitude: next free slot from -170 deg, or exactly at -180 / +180 / 0, or 0..360 / -180..180
+            let lon_variant = r.c % 10;
+            if lon_variant >= 8 {
+                inc_lon = 360 * 3600 / (cols as i64 - 1); // cols-1 in 1..=6 divides 1296000
+            }
+            let ew = (cols as i64 - 1) * inc_lon;
+            let w = match lon_variant {
+                4 => -180 * 3600,
+                5 => 180 * 3600 - ew,
+                6 => 0,
+                7 => 360 * 3600 - ew,
+                8 => 0,
+                9 => -180 * 3600,
+                _ => cursor_w,
+            };
+            // roots must stay clear of each other (4 coarse cells)
+            let gap = 4 * 7200;
+            let clear = out.iter().filter(|p| p.parent.is_none()).all(|p| {
+                let (pn, pe) = (p.s + (p.rows as i64 - 1) * p.inc_lat, p.w + (p.cols as i64 - 1) * p.inc_lon);
+                s > pn + gap || s + el < p.s - gap || w > pe + gap || w + ew < p.w - gap
+            });
+            if clear {
+                if lon_variant < 4 {
+                    cursor_w += ew + gap;
+                }
+                out.push(Placed { name, parent: None, s, w, inc_lat, inc_lon, rows, cols, kids: vec![], vseed: r.vseed, order: r.order });
+            }
         }
     }
     out
@@ -2292,7 +2362,7 @@ fn main() {
     let side = if thorough { 20 } else { 12 };
     run.section(
         "gravsoft-roundtrip",
-        "random grids (2..12 rows/cols, 1-3 bands; angular, and linear/projected with 0, 1, 2 or 3 of the four bounds within +-720 on either axis, incl. 0 and negative bounds) rendered in random layouts (comments incl. '#' glued to the preceding header number / node value / last value of the file, '#' followed directly by text or a number, '#' alone, comments containing '#'; blank lines, CRLF, tabs, header split over lines, one row/node/value per line, 8 number spellings, either sign of dlat/dlon, with/without final newline); non-trivial = every node value and all four edges verified; distinct by text",
+        "random grids (2..12 rows/cols, 1-3 bands; angular with bounds anywhere in [-720, 720] incl. exactly +-90, +-180, +-360, +-720, global 0..360 / -180..180 / -90..90, and bounds just beyond +-720; linear/projected with 0, 1, 2 or 3 of the four bounds within +-720 on either axis, incl. 0 and negative bounds) rendered in random layouts (comments incl. '#' glued to the preceding header number / node value / last value of the file, '#' followed directly by text or a number, '#' alone, comments containing '#'; blank lines, CRLF, tabs, header split over lines, one row/node/value per line, 8 number spellings, either sign of dlat/dlon, with/without final newline); non-trivial = every node value and all four edges verified; distinct by text",
         n,
         move || grav_case(side),
         |c: &GravCase, rec: &mut Rec| {
@@ -2300,6 +2370,30 @@ fn main() {
             match check_grav_decode(c.text.as_bytes(), &c.spec) {
                 Ok(s) => {
                     rec.class(&format!("bands{}-{}", c.spec.bands, if c.spec.angular() { "angular" } else { "linear" }));
+                    {
+                        let b = [c.spec.lat_s.0, c.spec.lat_n.0, c.spec.lon_w.0, c.spec.lon_e.0];
+                        let kind = if c.spec.angular() { "angular" } else { "linear" };
+                        for (v, name) in [(360.0, "360"), (720.0, "720"), (90.0, "90"), (180.0, "180")] {
+                            if b.iter().any(|h| h.abs() == v) {
+                                rec.class(&format!("{kind}-bound-exactly-+-{name}"));
+                            }
+                        }
+                        if c.spec.angular() && b.iter().any(|h| h.abs() > 360.0 && h.abs() < 720.0) {
+                            rec.class("angular-bound-between-360-and-720");
+                        }
+                        if b.iter().any(|h| h.abs() > 720.0 && h.abs() < 721.0) {
+                            rec.class("linear-bound-just-beyond-720");
+                        }
+                        if c.spec.angular() && (b[2], b[3]) == (0.0, 360.0) {
+                            rec.class("angular-global-lon-0..360");
+                        }
+                        if c.spec.angular() && (b[2], b[3]) == (-180.0, 180.0) {
+                            rec.class("angular-global-lon--180..180");
+                        }
+                        if c.spec.angular() && (b[0], b[1]) == (-90.0, 90.0) {
+                            rec.class("angular-global-lat--90..90");
+                        }
+                    }
                     if !c.spec.angular() {
                         let b = [c.spec.lat_s.0, c.spec.lat_n.0, c.spec.lon_w.0, c.spec.lon_e.0];
                         let inside = b.iter().filter(|h| h.abs() <= 720.).count();
@@ -2368,7 +2462,7 @@ fn main() {
     let maxsubs = if thorough { 9 } else { 6 };
     run.section(
         "ntv2-roundtrip",
-        "random sub-grid trees (1..6 sub-grids, up to 3 roots, children nested to any depth, cell-aligned, refinement 2-4x), random file order, both byte orders, with/without END record, zero or garbage padding; non-trivial = at least one node verified in every sub-grid; distinct by bytes",
+        "random sub-grid trees (1..6 sub-grids, up to 3 roots anywhere in latitude [-80, 80] or touching +90 / -90 exactly or pole to pole, longitudes free or anchored exactly at -180, +180, 0, 360, 0..360, -180..180; children inherit these edges; children nested to any depth, cell-aligned, refinement 2-4x), random file order, both byte orders, with/without END record, zero or garbage padding; non-trivial = at least one node verified in every sub-grid; distinct by bytes",
         n,
         move || nt_case(maxsubs),
         |c: &NtCase, rec: &mut Rec| {
@@ -2390,6 +2484,27 @@ fn main() {
                     }
                     if c.spec.subs.iter().any(|s| c.spec.subs.iter().any(|p| p.name == s.parent && p.parent != "NONE")) {
                         rec.class("depth>=3");
+                    }
+                    for sub in &c.spec.subs {
+                        let kind = if sub.parent == "NONE" { "root" } else { "child" };
+                        if sub.n_lat.0 == 324000.0 {
+                            rec.class(&format!("{kind}-north-edge-exactly-+90"));
+                        }
+                        if sub.s_lat.0 == -324000.0 {
+                            rec.class(&format!("{kind}-south-edge-exactly--90"));
+                        }
+                        if sub.w_long.0 == 648000.0 || sub.e_long.0 == -648000.0 {
+                            rec.class(&format!("{kind}-edge-exactly-+-180"));
+                        }
+                        if sub.e_long.0 == -1296000.0 {
+                            rec.class(&format!("{kind}-east-edge-exactly-360"));
+                        }
+                        if sub.w_long.0 == 0.0 || sub.e_long.0 == 0.0 {
+                            rec.class(&format!("{kind}-edge-on-greenwich"));
+                        }
+                        if sub.s_lat.0 == -324000.0 && sub.n_lat.0 == 324000.0 && (sub.w_long.0 - sub.e_long.0) == 1296000.0 {
+                            rec.class(&format!("{kind}-global"));
+                        }
                     }
                     rec.count("nodes_checked", s.nodes_checked);
                     rec.count("probes", s.probes);
